@@ -1,6 +1,8 @@
 //! Correspondence harness for the bita verification: generates cases, runs the implementation built
 //! from /repo's working tree, writes model inputs + implementation outputs + statistics + oracle findings.
 mod chunking;
+mod clone;
+mod memfile;
 mod util;
 
 use util::Stats;
@@ -17,6 +19,7 @@ fn main() {
         let line = args[2..].join(" ");
         let r = match line.split(' ').next().unwrap_or("") {
             "stream" | "stream2" | "resync" | "hash" | "f6" => chunking::replay(&line),
+            "planner" | "clone" => clone::replay(&line),
             k => Err(format!("unknown replay kind {}", k)),
         };
         match r {
@@ -48,6 +51,8 @@ fn main() {
         "oneshot" => chunking::suite_oneshot(&out, seed, thorough, &mut st),
         "exh" => chunking::suite_exhaustive(&out, seed, thorough, &mut st),
         "resync" => chunking::suite_resync(&out, seed, thorough, &mut st),
+        "planner" => clone::suite_planner(&out, seed, thorough, &mut st),
+        "clone" => clone::suite_clone(&out, seed, thorough, &mut st),
         _ => {
             eprintln!("unknown suite {}", suite);
             std::process::exit(2);
